@@ -69,6 +69,142 @@ func parseCaseInfo(c Case, sch *Schema) caseInfo {
 	return ci
 }
 
+// detachTimeline: for every transition (by index in txs) the set of bindings already detached when
+// it started and the set detached when it ended, replaying the case's `detach:` rules over the
+// handler calls in their order (occurrence counting as the runner does).
+func detachTimeline(c Case, obs []OpObs) (before, after []map[int]bool) {
+	type key struct {
+		b    int
+		name string
+	}
+	// the runner takes the first rule line whose occurrence matches, else the first `*` line
+	nth := map[key]map[int]int{} // (bind,name) -> occurrence -> detached binding (-1: not a detach rule)
+	star := map[key]int{}
+	for _, l := range c.Lines {
+		t := strings.Fields(l)
+		if len(t) >= 5 && t[0] == "rule" {
+			var b int
+			d := -1
+			fmt.Sscan(t[1], &b)
+			if strings.HasPrefix(t[4], "detach:") {
+				fmt.Sscan(t[4][7:], &d)
+			}
+			k := key{b, t[2]}
+			if t[3] == "*" {
+				if _, ok := star[k]; !ok {
+					star[k] = d
+				}
+				continue
+			}
+			var n int
+			fmt.Sscan(t[3], &n)
+			if nth[k] == nil {
+				nth[k] = map[int]int{}
+			}
+			if _, ok := nth[k][n]; !ok {
+				nth[k][n] = d
+			}
+		}
+	}
+	occ := map[key]int{}
+	gone := map[int]bool{}
+	cp := func() map[int]bool {
+		m := map[int]bool{}
+		for k, v := range gone {
+			m[k] = v
+		}
+		return m
+	}
+	for li := range obs {
+		for i := range obs[li].Events {
+			e := &obs[li].Events[i]
+			switch e.Kind {
+			case "TI":
+				before = append(before, cp())
+				after = append(after, nil)
+			case "TE":
+				for j := len(after) - 1; j >= 0; j-- {
+					if after[j] == nil {
+						after[j] = cp()
+						break
+					}
+				}
+			case "H":
+				k := key{e.Bind, e.HName}
+				n := occ[k]
+				occ[k] = n + 1
+				if d, ok := nth[k][n]; ok {
+					if d >= 0 {
+						gone[d] = true
+					}
+				} else if d, ok := star[k]; ok && d >= 0 {
+					gone[d] = true
+				}
+			}
+		}
+	}
+	for j := range after {
+		if after[j] == nil {
+			after[j] = cp()
+		}
+	}
+	return before, after
+}
+
+// handlerActs: what every observed handler call was told to do (the runner takes the first rule
+// line whose occurrence matches, else the first `*` line, else "t"), keyed by the event's address.
+func handlerActs(c Case, obs []OpObs) map[*Event]string {
+	type key struct {
+		b    int
+		name string
+	}
+	nth := map[key]map[int]string{}
+	star := map[key]string{}
+	for _, l := range c.Lines {
+		t := strings.Fields(l)
+		if len(t) >= 5 && t[0] == "rule" {
+			var b int
+			fmt.Sscan(t[1], &b)
+			k := key{b, t[2]}
+			if t[3] == "*" {
+				if _, ok := star[k]; !ok {
+					star[k] = t[4]
+				}
+				continue
+			}
+			var n int
+			fmt.Sscan(t[3], &n)
+			if nth[k] == nil {
+				nth[k] = map[int]string{}
+			}
+			if _, ok := nth[k][n]; !ok {
+				nth[k][n] = t[4]
+			}
+		}
+	}
+	occ := map[key]int{}
+	out := map[*Event]string{}
+	for li := range obs {
+		for i := range obs[li].Events {
+			e := &obs[li].Events[i]
+			if e.Kind != "H" {
+				continue
+			}
+			k := key{e.Bind, e.HName}
+			n := occ[k]
+			occ[k] = n + 1
+			if a, ok := nth[k][n]; ok {
+				out[e] = a
+			} else if a, ok := star[k]; ok {
+				out[e] = a
+			} else {
+				out[e] = "t"
+			}
+		}
+	}
+	return out
+}
+
 // alwaysFalse returns the (bind/name) keys whose every call returns false
 // (a single `* f` rule and no nth-specific rule).
 func alwaysFalse(c Case) map[string]bool {
@@ -506,9 +642,14 @@ func Monitor(prop string, c Case, sch *Schema, obs []OpObs) []Failure {
 		if ci.faulty {
 			break
 		}
-		for _, tx := range txs {
+		goneB, goneA := detachTimeline(c, obs)
+		for txi, tx := range txs {
 			if tx.TE == nil {
 				continue
+			}
+			gb, ga := map[int]bool{}, map[int]bool{}
+			if txi < len(goneB) {
+				gb, ga = goneB[txi], goneA[txi]
 			}
 			phase := func(h string) int {
 				switch {
@@ -579,7 +720,14 @@ func Monitor(prop string, c Case, sch *Schema, obs []OpObs) []Failure {
 						} else if bef[i] && !aft[i] {
 							want = fmt.Sprintf("%d/end:%d", b, i)
 						}
-						if want != "" && defined[want] && count[want] != 1 && !ci.detach {
+						if want == "" || !defined[want] {
+							continue
+						}
+						// a binding detached during this very transition may or may not have been reached
+						if gb[b] && count[want] != 0 {
+							add(tx.Line, "", "final handler %s of a detached binding ran", want)
+						}
+						if !gb[b] && !ga[b] && count[want] != 1 {
 							add(tx.Line, "", "final handler %s ran %d times", want, count[want])
 						}
 					}
@@ -627,6 +775,24 @@ func Monitor(prop string, c Case, sch *Schema, obs []OpObs) []Failure {
 				for _, h := range tx.HBefore {
 					if af[fmt.Sprintf("%d/%s", h.Bind, h.HName)] {
 						add(tx.Line, "", "negotiation handler %s returned false but the transition was accepted", h.HName)
+					}
+				}
+				// a bound Exit / Enter handler that always vetoes: the state cannot have left / entered,
+				// whether or not the handler was reached
+				if tx.TF != nil {
+					bef, aft := setOf(tx.TI.Before), setOf(tx.TF.Active)
+					for b := 0; b < ci.nbind; b++ {
+						if gb[b] || ga[b] {
+							continue
+						}
+						for i := 0; i < n; i++ {
+							if bef[i] && !aft[i] && af[fmt.Sprintf("%d/exit:%d", b, i)] {
+								add(tx.Line, "", "state %d was deactivated although the Exit handler of binding %d always returns false", i, b)
+							}
+							if !bef[i] && aft[i] && af[fmt.Sprintf("%d/enter:%d", b, i)] {
+								add(tx.Line, "", "state %d was activated although the Enter handler of binding %d always returns false", i, b)
+							}
+						}
 					}
 				}
 			}
@@ -1018,6 +1184,41 @@ func Monitor(prop string, c Case, sch *Schema, obs []OpObs) []Failure {
 			}
 		}
 	case "C08":
+		acts := handlerActs(c, obs)
+		for li := range obs {
+			// a panic makes Exception active carrying the panic: the Exception mutation is prepended
+			// (unless the faulting transition is itself an Exception transition: no nesting)
+			if ci.disposes {
+				break
+			}
+			o := &obs[li]
+			var ti *Event
+			for i := range o.Events {
+				e := &o.Events[i]
+				if e.Kind == "TI" {
+					ti = e
+				}
+				if e.Kind != "H" || ti == nil || contains(ti.Called, sch.Exc) {
+					continue
+				}
+				if a := acts[e]; a != "panic" && a != "panicstr" {
+					continue
+				}
+				found := false
+				for j := i + 1; j < len(o.Events) && !found; j++ {
+					q := &o.Events[j]
+					if q.Kind == "TI" {
+						break
+					}
+					if q.Kind == "MQ" && q.HasArgs && len(q.Called) == 1 && q.Called[0] == sch.Exc {
+						found = true
+					}
+				}
+				if !found {
+					add(li, "", "handler %d/%s panicked but no Exception mutation carrying the panic followed", e.Bind, e.HName)
+				}
+			}
+		}
 		for li, o := range obs {
 			if o.Crash != "" {
 				add(li, "", "the call did not return normally: %s", o.Crash)
